@@ -250,9 +250,9 @@ func (ws *WatchingSource) Watch(
 //
 //	It creates a timestamped tempdir named by
 //	`ioutil.TempDir(w.targetDir, time.Now().UTC().Format("..2006_01_02_15_04_05."))`
-//	which contains all the "projected" files, and a `..dir` symlink to that directory.
+//	which contains all the "projected" files, and a `..data` symlink to that directory.
 //	It then creates symlinks from the user-visible location into the
-//	`..dir` directory, so it can populate a new timestamped dir and do
+//	`..data` directory, so it can populate a new timestamped dir and do
 //	an atomic rename (from `..data_tmp` to `..data`) of the symlink to
 //	make all contents of the configmap atomically updatable.
 //	The timestamped directory is then symlinked to `..data_tmp`, which
@@ -267,7 +267,11 @@ func (ws *WatchingSource) Watch(
 //
 // Note: we can be a bit liberal about watching because we verify
 // content-changes with an HMAC-SHA256 before reporting anything upstream.
-const k8sIntermediateSymlinkDir = "..dir"
+const k8sIntermediateSymlinkDir = "..data"
+
+// legacyIntermediateSymlinkDir is the name earlier versions of this package
+// looked for; layouts modelled on it keep working.
+const legacyIntermediateSymlinkDir = "..dir"
 
 func (ws *WatchingSource) watchLoop(
 	ctx context.Context,
@@ -290,6 +294,7 @@ func (ws *WatchingSource) watchLoop(
 	eventNumber := 0
 	cleanedPathDir := filepath.Dir(cleanedPath)
 	cleanedPathDirPlusDir := filepath.Join(cleanedPathDir, k8sIntermediateSymlinkDir)
+	cleanedPathDirPlusLegacyDir := filepath.Join(cleanedPathDir, legacyIntermediateSymlinkDir)
 MAINLOOP:
 	for {
 		select {
@@ -305,7 +310,8 @@ MAINLOOP:
 			// resolved.
 			switch ev.Name {
 			case resolvedCfgPath, cleanedPath, cleanedPathDir,
-				cleanedPathDirPlusDir, filepath.Dir(resolvedCfgPath):
+				cleanedPathDirPlusDir, cleanedPathDirPlusLegacyDir,
+				filepath.Dir(resolvedCfgPath):
 			default:
 				continue MAINLOOP
 			}
